@@ -28,6 +28,15 @@ CHECKS = {
  "C07": dict(category="fault_enumeration", technique="exhaustive crash-point enumeration inside GC passes over all small layouts and ranges",
    text="Every layout up to L letters in two GC configurations (in-place rewrite; append to an earlier short file then overflow), all data flushed, then every range the range check resolves x merge off/on with the mutation log on: every prefix of the pass's mutations and torn variants of each write is applied to the pre-GC directory and recovered; every key must read exactly its pre-GC reference-map entry.",
    note="SIGKILL model; no client writes during the pass. The in-place stale-tail defect found here was repaired (fix: commit 6923fbe).", design="4/C07"),
+ "C04": dict(category="model_checking", technique="stateless model checking under a controlled scheduler, iterative preemption bounding, per-key history oracle",
+   text="Six scenarios (2-4 threads, 1-3 keys forced into one leaf and one data file: two writers + reader; set/delete/reads of a flushed key; C-allocated value vs forced flush vs reader; rotation with spawned flush + periodic flusher + reader; hint-split rotation + dumper + reader; two buckets + flusher) are executed on the real store under a cooperative scheduler that owns every lock acquisition, file-system call, goroutine spawn and wait; EVERY interleaving with at most 2 preemptions (thorough 3), and every interleaving with lock releases as extra scheduling points at bound 1 (thorough 2), is run to completion; the recorded call/return history is checked against the statement (reads return a stored value not older than the latest write acknowledged before they began, distinct versions in real-time order, final state = highest version, again after exit + reopen). Deadlock, fatal exit and panics are violations.",
+   note="Sequentially consistent interleavings at synchronisation / file-system granularity; cgo atomic; unsynchronised field accesses are not scheduling points. 2-4 threads, not 16 clients; preemption bound as stated.", design="4/C04"),
+ "C05": dict(category="model_checking", technique="stateless model checking of one GC pass against a writer and a reader, iterative preemption bounding",
+   text="On a store laid out so that a pass over [0,1] relocates the current records of keys a and b, one GC pass (direct, through HStore.GC, with a canceller) runs against a writer (set a / delete a / set b / two sets) and a reader under the controlled scheduler; every interleaving with at most 3 preemptions (thorough 4) at lock, file-system and spawn points - which bracket GC's newest-check, copy, repoint, hint write and source clear - is executed; oracle: C04's conditions with the documented relaxation for reads overlapping the pass, final state, and again after Close + exit + reopen with and without the tree dump. The get-then-set repoint race found here was repaired (fix: 55611a9).",
+   note="One layout family (2 files in range), merge off; bounds as stated; sequentially consistent interleavings.", design="4/C05"),
+ "C17": dict(category="model_checking", technique="schedule exploration of concurrent GC requests (part b) and exhaustive argument x layout enumeration with the file-system mutation log as oracle (part a)",
+   text="Part (b): two and three concurrent HStore.GC requests for one bucket, every interleaving with at most 2 preemptions (thorough 3); a pass is in progress from the acceptance of its request until its goroutine ends (observed by the scheduler); overlap of passes or acceptance inside that window is a violation. Part (a): all (start,end) in [-1..7]^2 x no_gc_days x merge x pretend over layouts of 1..6 data files with gaps, old/recent first-record timestamps and empty/unflushed/flushed head; the memfs mutation log gives the exact set of files written, truncated or removed, judged by the property's own rules.",
+   note="The check-then-spawn defect found by part (b) was repaired (fix: 9594a5d). Bounds as stated.", design="4/C17"),
 }
 
 NOT_APPLICABLE = []
